@@ -76,6 +76,26 @@ def sweep(ctx, N):
                                           src, n, method, order, x0, got, float(D[n]), err, 100 * ENVELOPE[n], S),
                                       {'f': src, 'x': x0, 'n': n, 'method': method, 'order': order, 'got': got, 'exact': float(D[n]), 'local_scale': S,
                                        'how': 'import numpy as np, numdifftools as nd; nd.Derivative(lambda x: <f>, n=n, method=method, order=order)(x)'})
+                # the same call with the OTHER documented step ratio given by the user (2.0 where the default is 1.6 and vice versa): the rule is
+                # then looked up / built for a ratio the defaults never ask for
+                if method != 'multicomplex' and 1 <= n <= (4 if method in ('forward', 'backward') else 6):
+                    order = [2, 4, 1, 3][(done + n) % 4]
+                    ratio = 1.6 if n == 1 else 2.0
+                    try:
+                        got = float(np.ravel(nd.Derivative(f, n=n, method=method, order=order, step_ratio=ratio)(x0))[0])
+                    except Exception as ex:   # noqa
+                        ctx.violation('raises-user-ratio:%s:%d' % (method, n), 'nd.Derivative(lambda x: %s, n=%d, method=%r, order=%d, step_ratio=%r)(%r) raises %r' % (src, n, method, order, ratio, x0, ex),
+                                      {'f': src, 'x': x0, 'n': n, 'method': method, 'order': order, 'step_ratio': ratio})
+                        got = float('nan')
+                    if np.isfinite(got):
+                        ctx.count(1, ('sweep-user-ratio', method, n))
+                        err = abs(got - float(D[n]))
+                        ctx.cov['user_ratio_worst'] = max(ctx.cov.get('user_ratio_worst', 0.0), err / (100 * ENVELOPE[n] * S))
+                        if not err <= 100 * ENVELOPE[n] * S:
+                            ctx.violation('accuracy-user-ratio:%s:%d' % (method, n),
+                                          'nd.Derivative(lambda x: %s, n=%d, method=%r, order=%d, step_ratio=%r)(%r) = %r, exact %r (error %.3g, envelope %.3g x local scale %.3g)' % (
+                                              src, n, method, order, ratio, x0, got, float(D[n]), err, 100 * ENVELOPE[n], S),
+                                          {'f': src, 'x': x0, 'n': n, 'method': method, 'order': order, 'step_ratio': ratio, 'got': got, 'exact': float(D[n]), 'local_scale': S})
                 # the same call with a default-constructed MinStepGenerator (its base step comes from default_scale(method, n, order))
                 if method != 'multicomplex' and n >= 1:
                     order = 2 if (done + n) % 2 else 4
